@@ -112,6 +112,8 @@ def make_termination(t):
         return T.Or(make_termination(t[1]), make_termination(t[2]))
     if k == "And":
         return T.And(make_termination(t[1]), make_termination(t[2]))
+    if k == "EVL":
+        return T.EvaluationLimits(generations=t[1], evaluations=t[2])
     if k == "never":
         return T.VTR(-1.0, 0.0)     # |E - 0| <= -1 is never true
     raise ValueError(t)
